@@ -241,10 +241,6 @@ End Serve.
 Definition total_layers (r : req) : Prop :=
   (forall e, s_gen r <> SCrash e) /\ (forall e, s_in r <> SCrash e) /\ (exists ch, s_eser r = ESerOk ch).
 
-(** chunked=False joins a lazily produced body inside handle_rpc, outside any try *)
-Definition join_ok (c : cfg) (r : req) : Prop :=
-  chunked c = true \/ forall ch, s_ser r <> SerOk (BLazy ch true).
-
 Ltac crush_run :=
   unfold run, handle_wsdl, handle_rpc, respond_ok, handle_error in *;
   repeat match goal with
@@ -262,14 +258,13 @@ Lemma run_clen c r k n ch f fin :
   o_resp (run c r) = Responds k (Some n) ch f fin -> f = false /\ n = sumz ch.
 Proof. crush_run; intros H; inversion H; subst; simpl; split; auto; lia. Qed.
 
-Lemma run_responds c r : total_layers r -> join_ok c r ->
+Lemma run_responds c r : total_layers r ->
   exists k cl ch f fin, o_resp (run c r) = Responds k cl ch f fin.
 Proof.
-  intros (Hg & Hi & [ch0 He]) Hj.
+  intros (Hg & Hi & [ch0 He]).
   crush_run; try (do 5 eexists; reflexivity);
     try (exfalso; eapply Hg; eassumption); try (exfalso; eapply Hi; eassumption);
     try (exfalso; eapply read_loop_no_diverge; eassumption).
-  all: destruct Hj as [Hj | Hj]; [congruence | exfalso; eapply Hj; eassumption].
 Qed.
 
 (** the callable always returns or raises (the reader loop ends on an ended stream) *)
@@ -301,9 +296,9 @@ Qed.
 Lemma count_start_reads l : count is_start (reads l) = 0%nat.
 Proof. apply quiet_count, quiet_reads. reflexivity. Qed.
 
-Lemma one_start c r : total_layers r -> join_ok c r -> count is_start (trace c r) = 1%nat.
+Lemma one_start c r : total_layers r -> count is_start (trace c r) = 1%nat.
 Proof.
-  intros Ht Hj. destruct (run_responds c r Ht Hj) as (k & cl & ch & f & fin & E).
+  intros Ht. destruct (run_responds c r Ht) as (k & cl & ch & f & fin & E).
   rewrite trace_eq, !count_app, count_start_reads, E. simpl.
   destruct (fin_facts fin (run_fin _ _ _ _ _ _ _ E)) as (H1 & _).
   assert (count is_start (serve ch f fin (take r) (closes r)) = 0%nat)
